@@ -254,3 +254,42 @@ Example C18_vtt_never_above_applies :
   exists c, vtt_cursor_state {| c_path := [KP; KDiv; KBody]; c_ruby := None; c_open := [] |}
               [TStartRuby 0; TData 0; TStartRt 1; TData 0; TEnd 0; TEnd 2; TEnd 0] = Some c /\ c_path c = [KP; KDiv; KBody].
 Proof. eexists. split; reflexivity. Qed.
+
+(* ---- 6. The complete reader and writer models of the other properties ------------------------------------------------------
+   The guard models above treat the cue-text parsers, SccLine.process and tf.to_model as oracles.  The complete transcriptions built
+   for C04, C05, C08, C09, C10 and C11 (each tied to the code by its own property's correspondence run) have no oracle; what their
+   theorems say about failure is restated here (Proofs/C18/FullModels.v holds nothing but the references). *)
+From TT Require Proofs.C18.FullModels.
+From TT Require Base.SrtTypes Model.SrtReader Model.VttReader Model.StlDatafile Model.SccReader Base.SccDoc Base.ImscXml Model.ImscTiming Model.ImscWrite.
+
+(* SRT: for every text, through a newline-translating file or a raw stream, nothing but ValueError is raised *)
+Theorem C18_full_srt_reader : forall content,
+  Proofs.C10.Outcomes.value_error_only (Model.SrtReader.to_model content) /\
+  Proofs.C10.Outcomes.value_error_only (Model.SrtReader.to_model_file content) /\
+  Proofs.C10.Outcomes.value_error_only (Model.SrtReader.read_cues content) /\
+  Proofs.C10.Outcomes.value_error_only (Model.SrtReader.read_cues_file content).
+Proof. exact Proofs.C18.FullModels.srt_reader_only_value_error. Qed.
+Print Assumptions C18_full_srt_reader.
+
+(* WebVTT: for every file text the only exceptions are TypeError and RuntimeError, i.e. the recorded finding vtt-ruby-structure *)
+Theorem C18_full_vtt_reader : forall file e,
+  Model.VttReader.to_model file = Model.VttReader.Raised e -> e = Model.VttReader.ExType \/ e = Model.VttReader.ExRuntime.
+Proof. exact Proofs.C18.FullModels.vtt_reader_exceptions. Qed.
+Print Assumptions C18_full_vtt_reader.
+
+(* EBU STL: for every byte string and configuration the only errors are struct.error and ValueError *)
+Theorem C18_full_stl_reader : forall file cfg e,
+  Model.StlDatafile.reader_model file cfg = Model.StlDatafile.Err e -> e = Model.StlDatafile.EStruct \/ e = Model.StlDatafile.EValue.
+Proof. exact Proofs.C18.FullModels.stl_reader_errors. Qed.
+Print Assumptions C18_full_stl_reader.
+
+(* SCC: to_model raises iff some line holds a malformed word *)
+Theorem C18_full_scc_reader : forall talign lines,
+  Model.SccReader.to_model talign lines = Base.SccDoc.DocErr <-> exists l, List.In l lines /\ Model.SccReader.from_str l = Model.SccReader.LErr.
+Proof. exact Proofs.C18.FullModels.scc_reader_raises_iff. Qed.
+Print Assumptions C18_full_scc_reader.
+
+(* IMSC (from the ElementTree on): every tree is read into a document *)
+Theorem C18_full_imsc_reader : forall tm vl x, exists d, Model.ImscTiming.read_tt tm vl x = Model.ImscTiming.DOk d.
+Proof. exact Proofs.C18.FullModels.imsc_reader_total. Qed.
+Print Assumptions C18_full_imsc_reader.
